@@ -1542,7 +1542,11 @@ class NetCDFWrite(IOWrite):
         axes = self.implementation.get_construct_data_axes(f, coord_key)
         for clim_axis in self.implementation.climatological_time_axes(f):
             if (clim_axis,) == axes:
-                if not coord.is_climatology() and any(
+                # (only coordinate constructs can be climatological:
+                # a domain ancillary construct, for instance, has no
+                # `is_climatology` method)
+                is_climatology = getattr(coord, "is_climatology", None)
+                if (is_climatology is None or not is_climatology()) and any(
                     c.is_climatology()
                     for key, c in self.implementation.get_coordinates(
                         f
